@@ -101,6 +101,15 @@ CHECKS = {
              'outside the reference reading (negated hold conditions, hold without leading operator, entity prefixes inside formulas) are only '
              'exercised; known findings F14, F16, F17, F25; genuine defect F4a repaired by fix: commit 8e63ed9.',
         design='DESIGN.md §6 C05'),
+    'C09': dict(
+        technique='Lean 4 proof over regenerated callback tables and string normalisers + paraphrase differential on the real compiler',
+        text='Lean theorems: every synonym pair the property lists maps to one operator in the regenerated callback tables and non-synonyms stay '
+             'distinct; the keyword alternatives are alternatives of the current terminals; for every verb word the third-person -s names the same '
+             'predicate, and for every (ASCII) concept word letter case does not change the concept key.',
+        note='Trusted: Lean kernel; extract_tables.py. Partial: invariance under articles, plural nouns, commas, white space and comments rests on '
+             'Lark and inflect, which are not modelled: it is exercised by ~950 paraphrases per quick run (single substitutions of every class and '
+             'combinations, plus the auxiliary x article grid of the COPULA terminal) compared byte for byte, not proved.',
+        design='DESIGN.md §6 C09'),
 }
 
 NOT_YET = {}
